@@ -42,7 +42,50 @@ def generate(rnd, tier):
     if chance(rnd, 0.5):
         # re-used / renaming-style variable names (v, v_0, ...) in sibling scopes
         fs = [fml.reuse_names(rnd, x) for x in fs]
+    if chance(rnd, 0.08):
+        sib = sibling_suffix_formula(rnd, cg, lits)
+        if sib is not None:
+            fs[rnd.randint(0, 1)] = sib
     return {"grammar": g, "gname": name, "tree": t, "f": fs[0], "g": fs[1], "nary": chance(rnd, 0.7)}
+
+
+def sibling_suffix_formula(rnd, cg, lits):
+    """(Q <T> x in start: A(x)) o (Q' <U> a="..{<T> x}..{<T> x_0}.." in start: B(x, x_0)): the second x has to be
+    renamed, and the name a renaming would pick first is the one its sibling already carries"""
+    fg = fml.FGen(rnd, cg, lits, dict(numq=0.0, unused=0.0, mexpr_depth=pick(rnd, [2, 3, 3, 4])))
+    nts = [k for k in cg if k != "<start>"]
+    for _ in range(12):
+        U = pick(rnd, nts)
+        mx, binds = fg.mexpr_for(U)
+        if not mx:
+            continue
+        types = [T for _, T in binds]
+        dup = [T for T in set(types) if types.count(T) >= 2]
+        if not dup:
+            continue
+        T = pick(rnd, sorted(dup))
+        base = pick(rnd, ["x", "v", "id"])
+        same = [v for v, tt in binds if tt == T][:2]
+        ren = {same[0]: base, same[1]: base + "_0"}
+
+        def mxren(elems):
+            out = []
+            for e in elems:
+                if e[0] == "bind":
+                    out.append(["bind", e[1], ren.get(e[2], e[2])])
+                elif e[0] == "opt":
+                    out.append(["opt", mxren(e[1])])
+                else:
+                    out.append(e)
+            return out
+
+        body = [pick(rnd, ["and", "or"]), fg.atom([(base, T)]), fg.atom([(base + "_0", T), (base, T)])]
+        q2 = [pick(rnd, ["forall", "exists"]), U, "a9", "start", mxren(mx), body]
+        q1 = [pick(rnd, ["forall", "exists"]), T, base, "start", None, fg.atom([(base, T)])]
+        if chance(rnd, 0.3):
+            q1 = ["not", q1]
+        return [pick(rnd, ["and", "or", "implies"]), q1, q2]
+    return None
 
 
 def flatten(F):
@@ -142,11 +185,29 @@ def judge(case):
     if flags:
         return {"labels": sorted(flags), "nontrivial": False, "violations": [], "inconclusive": "not_judged:" + sorted(flags)[0]}
     dt = rt.to_dt(rt.assign_ids(t)[0])
+    # the formula as written, BEFORE bound-variable renaming (parse_isla applies ensure_unique_bound_variables itself, so
+    # a formula that went through it has nothing left to rename): parsed with the renaming switched off from outside,
+    # the renaming is then applied explicitly below as one of the rewrites under test
+    raw = {}
+    real_rename = L.ensure_unique_bound_variables
+    try:
+        L.ensure_unique_bound_variables = lambda formula, *a, **k: formula
+        for key, src in (("F", f), ("G", g2)):
+            try:
+                raw[key] = L.parse_isla(fml.pr(src), g, SP, MP)
+            except Exception as e:
+                reraise_if_timeout(e)
+    finally:
+        L.ensure_unique_bound_variables = real_rename
     try:
         F = L.parse_isla(fml.pr(f), g, SP, MP)
         G = L.parse_isla(fml.pr(g2), g, SP, MP)
     except Exception as e:
         reraise_if_timeout(e)
+        if "F" in raw and "G" in raw and not isinstance(e, SyntaxError):
+            # the text parses with the renaming switched off and fails with it: the renaming raised
+            return {"labels": ["rename_raises_in_parse"], "nontrivial": True, "inconclusive": None,
+                    "violations": [{"sig": "unique_vars_on_parse:raises:%s" % type(e).__name__, "detail": str(e)[:300], "f": fml.pr(f), "g": fml.pr(g2)}]}
         return {"labels": ["parse_rejected"], "nontrivial": False, "violations": [], "inconclusive": "parse_rejected",
                 "sample": {"f": fml.pr(f), "error": type(e).__name__ + ": " + str(e)[:200]}}
     if case.get("nary"):
@@ -171,6 +232,18 @@ def judge(case):
         bf, bg = ev(F), ev(G)
     except Exception as e:
         reraise_if_timeout(e)
+        if "F" in raw and "G" in raw and not case.get("nary"):
+            # evaluation of the parsed (renamed) formula raises; if the formula as written (renaming switched off)
+            # evaluates to the reference verdict, the renaming inside parse_isla broke it
+            try:
+                rf, rg = ev(raw["F"]), ev(raw["G"])
+            except Exception as e2:
+                reraise_if_timeout(e2)
+                rf = rg = "raises"
+            if rf == vf and rg == vg:
+                return {"labels": labels + ["rename_breaks_evaluation"], "nontrivial": True, "inconclusive": None,
+                        "violations": [{"sig": "unique_vars_on_parse:evaluate_raises:%s" % type(e).__name__, "detail": str(e)[:300],
+                                        "f": fml.pr(f), "g": fml.pr(g2)}]}
         return {"labels": labels + ["base_raises"], "nontrivial": False, "violations": [], "inconclusive": "base_raises:" + type(e).__name__}
     if bf is None or bg is None:
         return {"labels": labels + ["base_unknown"], "nontrivial": False, "violations": [], "inconclusive": "base_unknown"}
@@ -228,6 +301,12 @@ def judge(case):
     check("dnf_shallow", lambda: L.convert_to_dnf(L.convert_to_nnf(F), deep=False), vf, shallow_dnf_ok)
     check("unique_vars", lambda: L.ensure_unique_bound_variables(F), vf,
           lambda X: True if len(bound_names(X)) == len(set(bound_names(X))) else "bound names repeat: %s" % bound_names(X))
+    if "F" in raw:
+        # the renaming applied to the formula as written (names may repeat in sibling scopes there)
+        labels.append("unique_vars_raw")
+        # (only what the property states -- same verdict, no exception: one pass does not always make the names
+        # unique, e.g. w_0 bound three times in sibling scopes becomes w_0, w_1, w_1; C07 records the instability)
+        check("unique_vars_raw", lambda: L.ensure_unique_bound_variables(raw["F"]), vf)
     check("and", lambda: F & G, vf and vg)
     check("or", lambda: F | G, vf or vg)
     check("and_neg", lambda: F & -G, vf and not vg)
